@@ -559,9 +559,9 @@ impl TapState {
                     || (w.auditor_on && w.msgs[raw.cursor.min(w.msgs.len())..].iter().any(|m| m.commit));
                 drop(w);
                 if lost_commit {
-                    cs.violate(env, &["C08", "C07"], "ended_on_stale_state", 0, format!("{detail}; a committed transaction is among the updates never delivered"));
+                    cs.violate(env, &["C08", "C06", "C07"], "ended_on_stale_state", 0, format!("{detail}; a committed transaction is among the updates never delivered"));
                 } else {
-                    cs.violate(env, &["C08"], "ended_on_stale_state", 0, detail);
+                    cs.violate(env, &["C08", "C06"], "ended_on_stale_state", 0, detail);
                 }
             }
         } else if let Some(prev) = &self.prev {
